@@ -991,6 +991,28 @@ func callBuiltin(caller *frame, callpos token.Pos, fn *ssa.Builtin, args []value
 		}
 		return copy(dst, src.([]value))
 
+	case "clear":
+		switch x := args[0].(type) {
+		case []value:
+			var z value
+			if len(x) > 0 {
+				z = zero(fn.Type().(*types.Signature).Params().At(0).Type().Underlying().(*types.Slice).Elem())
+			}
+			for j := range x {
+				caller.i.logStore(&x[j])
+				x[j] = z
+			}
+		case *gomap:
+			if x != nil {
+				for _, e := range x.entries {
+					if !e.deleted {
+						x.delete(caller.i, e.key)
+					}
+				}
+			}
+		}
+		return nil
+
 	case "close": // close(chan T)
 		close(args[0].(chan value))
 		return nil
